@@ -230,10 +230,20 @@ def doBlock (s : St) (rest : List String) : St × String :=
             decide (c ≤ 1) && (c == 0 || d == r.height)
           | _ => true
       | _ => true
+    -- the hypotheses of the C06 history theorems (`Due`, `C06_block_fires_due`): every group id on the list the timeout step of
+    -- this block walks has its record (`GlobalsPresent`: the walk is not abandoned), and every stored timeout list is well-formed
+    -- (`WFL`: the emptied-list marker alone, or no marker at all) at the end of the block
+    let globalsOk := (getTimeoutList l2 h).all fun id => match id with
+      | .global g => (match l2.getS (.glob g) with | some (.glob _) => true | _ => false)
+      | .single _ => true
+    let wfOk := n'.led.store.all fun kv => match kv with
+      | (.timeout _, .tlist lst) => lst == [none] || lst.all (fun x => x.isSome)
+      | _ => true
     ({ s with node := n', hist := s.hist ++ [(n'.height, n')], minJ := if n'.height > 10 then max s.minJ (n'.height - 10) else s.minJ,
               log := s.log ++ txs.filterMap id },
       showBlock out outside ++ " ##m listedfinal=" ++ (if listedFinal then "1" else "0") ++
         " abort=" ++ (if aborted then "1" else "0") ++ " openinv=" ++ (if openInv then "1" else "0") ++
+        " globals=" ++ (if globalsOk then "1" else "0") ++ " wf=" ++ (if wfOk then "1" else "0") ++
         -- the hypothesis of the router theorems (`C02_router_hands_each_pier_its_delivery_set` …): one entry per chain
         " keyedmulti=" ++ (if decide ((out.multiCounter.map (·.1)).Nodup) then "1" else "0"))
   else (s, "bad-op unparsed")
